@@ -9,7 +9,7 @@ from props import c01
 SPEC = {
     "gen": ["Rotations", "GetHkl", "UtilLeaf", "SolverLeaf"],
     "modules": ["DiffcalcProofs.Props.C02", "DiffcalcProofs.Props.C02Bisect", "DiffcalcProofs.Props.TieSolver"],
-    "theorems": {"DiffcalcProofs.Props.TieSolver": ["TieSolver.small_generated", "TieSolver.bound_generated", "TieSolver.sign_generated"],
+    "theorems": {"DiffcalcProofs.Props.TieSolver": ["TieSolver.small_generated", "TieSolver.bound_generated", "TieSolver.sign_generated", "TieSolver.anglesEquivalent_generated"],
         "DiffcalcProofs.Props.C02": [
         "C02.filter_sound", "C02.tidy_preserves_constrained", "C02.tidy_axes_spec", "C02.passthrough_detSamp2",
         "C02.passthrough_refSamp2", "C02.passthrough_samp3", "C02.passthrough_detRefSamp", "C02.passthrough_detector",
